@@ -402,7 +402,7 @@ func c01r3(c *core.Ctx) {
 						return true
 					}
 					pr, ok := s.(*ssa.Parameter)
-					return ok && f.Name() == "SetCryptographer" && pr.Parent() == f
+					return ok && cn(f) == "SetCryptographer" && pr.Parent() == f
 				})
 				why = "value must be nil or the argument of SetCryptographer"
 			}
@@ -489,13 +489,13 @@ func sessionViaStaticGet(v ssa.Value, r ssa.Value) bool {
 			continue
 		}
 		f := call.Call.StaticCallee()
-		if f == nil || f.Name() != "Get" || !core.InModule(f) {
+		if f == nil || cn(f) != "Get" || !core.InModule(f) {
 			continue
 		}
 		for _, a := range core.Args(call) {
 			for _, ks := range core.Sources(a) {
 				if kc, ok := ks.(*ssa.Call); ok {
-					if kf := kc.Call.StaticCallee(); kf != nil && kf.Name() == "GetConnectionKey" {
+					if kf := kc.Call.StaticCallee(); kf != nil && cn(kf) == "GetConnectionKey" {
 						for _, ka := range core.Args(kc) {
 							if valIs(ka, r) {
 								return true
